@@ -88,7 +88,14 @@ def sh(cmd, timeout=None, cwd=None, mem_kb=None, env=None):
         import resource
 
         def pre():
-            resource.setrlimit(resource.RLIMIT_AS, (mem_kb * 1024, mem_kb * 1024))
+            try:
+                soft, hard = resource.getrlimit(resource.RLIMIT_AS)
+                lim = mem_kb * 1024
+                if hard != resource.RLIM_INFINITY:
+                    lim = min(lim, hard)
+                resource.setrlimit(resource.RLIMIT_AS, (lim, hard))
+            except Exception:
+                pass
             os.setsid()
     else:
         pre = os.setsid
@@ -243,6 +250,10 @@ def src_path(s):
 def solver_flags(job):
     if job.solver == "kissat":
         return ["--external-sat-solver", "kissat"]
+    if job.solver == "z3":
+        return ["--z3"]
+    if job.solver == "cvc5":
+        return ["--cvc5"]
     return ["--sat-solver", "cadical"]
 
 
@@ -357,7 +368,7 @@ def run_job(job):
         return run_pyjob(job)
     t0 = time.time()
     res = {"job": job.name, "kind": job.kind, "bound": job.bound, "functions": job.functions,
-           "route": job.route, "backend": "cbmc 6.11 + " + job.solver, "status": "undecided",
+           "route": job.route, "backend": "cbmc 6.11 + " + ("z3 (SMT2)" if "--z3" in job.cbmc_flags else job.solver), "status": "undecided",
            "obligations": 0, "discharged": 0, "failed": [], "reason": "", "secs": 0.0, "domain": job.domain,
            "note": job.note, "harness": job.harness, "defines": job.defines, "assumptions": job.assumptions}
     workdir = tempfile.mkdtemp(prefix=re.sub(r"[^A-Za-z0-9_.-]", "_", job.name) + "-", dir=scratch())
